@@ -38,11 +38,15 @@ package k8s
 //@   ensures [error_keeps_local] result != nil && localdeletes == old(localdeletes) ==> true
 //@   ensures [others] forall n string :: {n in persisted} n != name ==> (n in persisted) == old(n in persisted)
 
+// everything the local store listed for this shard at the last flush has been persisted
+//@ const flushedAll = forall k int :: {listedconds[k]} 0 <= k && k < len(listedconds) && listedconds[k] != nil && shardOf(listedconds[k].Spec.UpstreamCluster, s.shardCount) == s.shard ==> (listedconds[k].Name in persisted)
+
 //@ func (*objectStore).doSyncLocked props C19
 //@   requires [count] 1 <= s.shardCount && s.shardCount <= 4294967295
-//@   modifies hashwritten, storeops, persisted, pspec, cells("*proxyv1alpha1.RateLimitCondition"), fields("proxyv1alpha1.RateLimitCondition", "Spec"), fields("proxyv1alpha1.RateLimitCondition", "Status")
+//@   modifies hashwritten, storeops, listedconds, persisted, pspec, cells("*proxyv1alpha1.RateLimitCondition"), fields("proxyv1alpha1.RateLimitCondition", "Spec"), fields("proxyv1alpha1.RateLimitCondition", "Status")
 //@   ensures [flushed] defined(items) ==> (result == nil ==> forall k int :: {items[k]} 0 <= k && k < len(items) && shardOf(items[k].Spec.UpstreamCluster, s.shardCount) == s.shard ==> items[k].Name in persisted)
-//@   loop 0: invariant [bounds] 0 <= idx && idx <= len(items)
+//@   ensures [flushed_listed] result == nil ==> flushedAll
+//@   loop 0: invariant [bounds] 0 <= idx && idx <= len(items) && listedconds == items
 //@   loop 0: invariant [done] forall k int :: {items[k]} 0 <= k && k < idx && shardOf(items[k].Spec.UpstreamCluster, s.shardCount) == s.shard ==> items[k].Name in persisted
 //@   loop 0: invariant [stable] s.shardCount == old(s.shardCount) && s.shard == old(s.shard)
 
@@ -59,4 +63,5 @@ package k8s
 //@   modifies *
 //@   ensures [already] old(s.stopped) ==> result == nil && persisted == old(persisted) && storeops == old(storeops)
 //@   ensures [stopped_only_on_success] s.stopped && !old(s.stopped) ==> result == nil
+//@   ensures [stopped_only_after_flush] s.stopped && !old(s.stopped) ==> flushedAll
 //@   ensures [error_not_stopped] result != nil ==> s.stopped == old(s.stopped)
